@@ -48,30 +48,25 @@ var _ Iterator[any] = (*combinedIterator[any])(nil)
 
 // Next see [Iterator.Next].
 func (c *combinedIterator[T]) Next(ctx context.Context) (T, error) {
-	c.mu.Lock() // no defer of Unlock because of the recursive call
+	// The lock is released by a defer so that a panic in a source iterator
+	// does not leave it held (Stop, typically deferred by the caller, takes it too).
+	c.mu.Lock()
+	defer c.mu.Unlock()
 
-	if len(c.pending) == 0 {
-		// All iterators ended.
-		var val T
-		c.mu.Unlock()
-		return val, ErrIteratorDone
-	}
-
-	iter := c.pending[0]
-	val, err := iter.Next(ctx)
-	if err != nil {
-		if errors.Is(err, ErrIteratorDone) {
+	for len(c.pending) > 0 {
+		iter := c.pending[0]
+		val, err := iter.Next(ctx)
+		if err != nil && errors.Is(err, ErrIteratorDone) {
 			c.pending = c.pending[1:]
 			iter.Stop() // clean up before dropping the reference
-			c.mu.Unlock()
-			return c.Next(ctx)
+			continue
 		}
-		c.mu.Unlock()
 		return val, err
 	}
 
-	c.mu.Unlock()
-	return val, nil
+	// All iterators ended.
+	var val T
+	return val, ErrIteratorDone
 }
 
 // Stop see [Iterator.Stop].
@@ -87,29 +82,23 @@ func (c *combinedIterator[T]) Stop() {
 
 // Head see [Iterator.Head].
 func (c *combinedIterator[T]) Head(ctx context.Context) (T, error) {
-	c.mu.Lock() // no defer of Unlock because of the recursive call
+	c.mu.Lock()
+	defer c.mu.Unlock()
 
-	if len(c.pending) == 0 {
-		// All iterators ended.
-		var val T
-		c.mu.Unlock()
-		return val, ErrIteratorDone
-	}
-
-	iter := c.pending[0]
-	val, err := iter.Head(ctx)
-	if err != nil {
-		if errors.Is(err, ErrIteratorDone) {
+	for len(c.pending) > 0 {
+		iter := c.pending[0]
+		val, err := iter.Head(ctx)
+		if err != nil && errors.Is(err, ErrIteratorDone) {
 			c.pending = c.pending[1:]
 			iter.Stop()
-			c.mu.Unlock()
-			return c.Head(ctx)
+			continue
 		}
-		c.mu.Unlock()
 		return val, err
 	}
-	c.mu.Unlock()
-	return val, nil
+
+	// All iterators ended.
+	var val T
+	return val, ErrIteratorDone
 }
 
 // IsOrdered returns false because sources are exhausted sequentially, so there is no ordering
